@@ -71,7 +71,8 @@ def main():
     dst = V / "seeded" / name
     dst.mkdir(parents=True, exist_ok=True)
     for f in ("patch.diff", "demo.py"):
-        shutil.copy(src / f, dst / f)
+        if (src / f).resolve() != (dst / f).resolve():
+            shutil.copy(src / f, dst / f)
     meta = {}
     if (src / "meta.json").exists():
         try:
